@@ -502,7 +502,7 @@ Definition rf_104 : fn_skel := {| sk_name := "snoopy_datasource_cgroup"; sk_npar
  (SExpr (XCall "free" [(XVar "procPidCgroupContent")]));
  (SReturn (Some (XVar "retMsgLen")))] |}.
 
-Definition rf_108 : fn_skel := {| sk_name := "snoopy_datasource_domain"; sk_nparams := 3; sk_body :=
+Definition rf_110 : fn_skel := {| sk_name := "snoopy_datasource_domain"; sk_nparams := 3; sk_body :=
  [(SDecl "fp" false None);
  (SDecl "hostname" false None);
  (SDecl "line" false None);
@@ -535,7 +535,7 @@ Definition rf_108 : fn_skel := {| sk_name := "snoopy_datasource_domain"; sk_npar
  (SExpr (XCall "fclose" [(XVar "fp")]));
  (SIf (XOp "!=" [(XCast (XInt (0)%Z)); (XVar "domainPtr")]) [(SReturn (Some (XCall "snprintf" [(XParam 0); (XParam 1); (XStr "%s"); (XVar "domainPtr")])))] [(SReturn (Some (XCall "snprintf" [(XParam 0); (XParam 1); (XStr "(none)")])))])] |}.
 
-Definition rf_110 : fn_skel := {| sk_name := "snoopy_datasource_egroup"; sk_nparams := 3; sk_body :=
+Definition rf_112 : fn_skel := {| sk_name := "snoopy_datasource_egroup"; sk_nparams := 3; sk_body :=
  [(SDecl "gr" false None);
  (SDecl "gr_gid" false (Some (XCast (XInt (0)%Z))));
  (SDecl "buffgr_gid" false (Some (XCast (XInt (0)%Z))));
@@ -549,7 +549,7 @@ Definition rf_110 : fn_skel := {| sk_name := "snoopy_datasource_egroup"; sk_npar
  (SExpr (XCall "free" [(XVar "buffgr_gid")]));
  (SReturn (Some (XVar "messageLength")))] |}.
 
-Definition rf_114 : fn_skel := {| sk_name := "snoopy_datasource_eusername"; sk_nparams := 3; sk_body :=
+Definition rf_116 : fn_skel := {| sk_name := "snoopy_datasource_eusername"; sk_nparams := 3; sk_body :=
  [(SDecl "pwd" false None);
  (SDecl "pwd_uid" false (Some (XCast (XInt (0)%Z))));
  (SDecl "buffpwd_uid" false (Some (XCast (XInt (0)%Z))));
@@ -563,7 +563,7 @@ Definition rf_114 : fn_skel := {| sk_name := "snoopy_datasource_eusername"; sk_n
  (SExpr (XCall "free" [(XVar "buffpwd_uid")]));
  (SReturn (Some (XVar "messageLength")))] |}.
 
-Definition rf_118 : fn_skel := {| sk_name := "snoopy_datasource_group"; sk_nparams := 3; sk_body :=
+Definition rf_120 : fn_skel := {| sk_name := "snoopy_datasource_group"; sk_nparams := 3; sk_body :=
  [(SDecl "gr" false None);
  (SDecl "gr_gid" false (Some (XCast (XInt (0)%Z))));
  (SDecl "buffgr_gid" false (Some (XCast (XInt (0)%Z))));
@@ -577,25 +577,32 @@ Definition rf_118 : fn_skel := {| sk_name := "snoopy_datasource_group"; sk_npara
  (SExpr (XCall "free" [(XVar "buffgr_gid")]));
  (SReturn (Some (XVar "messageLength")))] |}.
 
-Definition rf_121 : fn_skel := {| sk_name := "snoopy_util_utmp_findUtmpEntryByLine"; sk_nparams := 2; sk_body :=
+Definition rf_123 : fn_skel := {| sk_name := "snoopy_tsrm_getutline"; sk_nparams := 3; sk_body :=
+ [(SDecl "retVal" false None);
+ (SExpr (XCall "pthread_mutex_lock" [(XAddr (XVar "snoopy_tsrm_threadRepo_mutex"))]));
+ (SExpr (XCall "setutent" []));
+ (SAssign (XVar "retVal") (XCall "getutline_r" [(XParam 0); (XParam 1); (XParam 2)]));
+ (SExpr (XCall "endutent" []));
+ (SExpr (XCall "pthread_mutex_unlock" [(XAddr (XVar "snoopy_tsrm_threadRepo_mutex"))]));
+ (SReturn (Some (XVar "retVal")))] |}.
+
+Definition rf_124 : fn_skel := {| sk_name := "snoopy_util_utmp_findUtmpEntryByLine"; sk_nparams := 2; sk_body :=
  [(SDecl "searchEntry" false None);
  (SDecl "resultEntry" false None);
  (SDecl "retVal" false None);
  (SExpr (XCall "strncpy" [(XMember (XVar "searchEntry") "ut_line"); (XParam 0); (XInt (32)%Z)]));
  (SAssign (XIndex (XMember (XVar "searchEntry") "ut_line") (XOp "-" [(XInt (32)%Z); (XInt (1)%Z)])) (XInt (0)%Z));
- (SExpr (XCall "setutent" []));
- (SAssign (XVar "retVal") (XCall "getutline_r" [(XAddr (XVar "searchEntry")); (XParam 1); (XAddr (XVar "resultEntry"))]));
- (SExpr (XCall "endutent" []));
+ (SAssign (XVar "retVal") (XCall "snoopy_tsrm_getutline" [(XAddr (XVar "searchEntry")); (XParam 1); (XAddr (XVar "resultEntry"))]));
  (SIf (XOp "!=" [(XVar "retVal"); (XInt (0)%Z)]) [(SReturn (Some (XInt (0)%Z)))] []);
  (SReturn (Some (XInt (1)%Z)))] |}.
 
-Definition rf_122 : fn_skel := {| sk_name := "snoopy_util_utmp_findUtmpEntryByPath"; sk_nparams := 2; sk_body :=
+Definition rf_125 : fn_skel := {| sk_name := "snoopy_util_utmp_findUtmpEntryByPath"; sk_nparams := 2; sk_body :=
  [(SDecl "ttyLine" false None);
  (SIf (XOp "!=" [(XInt (0)%Z); (XCall "strncmp" [(XParam 0); (XStr "/dev/"); (XCall "strlen" [(XStr "/dev/")])])]) [(SReturn (Some (XInt (0)%Z)))] []);
  (SAssign (XVar "ttyLine") (XOp "+" [(XParam 0); (XCall "strlen" [(XStr "/dev/")])]));
  (SReturn (Some (XCall "snoopy_util_utmp_findUtmpEntryByLine" [(XVar "ttyLine"); (XParam 1)])))] |}.
 
-Definition rf_124 : fn_skel := {| sk_name := "snoopy_datasource_ipaddr"; sk_nparams := 3; sk_body :=
+Definition rf_127 : fn_skel := {| sk_name := "snoopy_datasource_ipaddr"; sk_nparams := 3; sk_body :=
  [(SDecl "ttyPathBuf" false None);
  (SDecl "utmpEntryBuf" false None);
  (SDecl "utmpEntry" false (Some (XAddr (XVar "utmpEntryBuf"))));
@@ -609,10 +616,10 @@ Definition rf_124 : fn_skel := {| sk_name := "snoopy_datasource_ipaddr"; sk_npar
  (SExpr (XCall "snoopy_util_utmp_getUtmpIpAddrAsString" [(XVar "utmpEntry"); (XParam 0); (XParam 1)]));
  (SReturn (Some (XCast (XCall "strlen" [(XParam 0)]))))] |}.
 
-Definition rf_129 : fn_skel := {| sk_name := "snoopy_datasource_rpname"; sk_nparams := 3; sk_body :=
+Definition rf_132 : fn_skel := {| sk_name := "snoopy_datasource_rpname"; sk_nparams := 3; sk_body :=
  [(SReturn (Some (XCall "get_rpname" [(XCall "getpid" []); (XParam 0); (XParam 1)])))] |}.
 
-Definition rf_136 : fn_skel := {| sk_name := "snoopy_util_pwd_convertUidToUsername"; sk_nparams := 1; sk_body :=
+Definition rf_139 : fn_skel := {| sk_name := "snoopy_util_pwd_convertUidToUsername"; sk_nparams := 1; sk_body :=
  [(SDecl "pwd" false None);
  (SDecl "pwd_uid" false (Some (XCast (XInt (0)%Z))));
  (SDecl "buffpwd_uid" false (Some (XCast (XInt (0)%Z))));
@@ -634,7 +641,7 @@ Definition rf_136 : fn_skel := {| sk_name := "snoopy_util_pwd_convertUidToUserna
  (SExpr (XCall "free" [(XVar "buffpwd_uid")]));
  (SReturn (Some (XVar "username")))] |}.
 
-Definition rf_137 : fn_skel := {| sk_name := "snoopy_util_systemd_convertUserSliceInfoToUsername"; sk_nparams := 1; sk_body :=
+Definition rf_140 : fn_skel := {| sk_name := "snoopy_util_systemd_convertUserSliceInfoToUsername"; sk_nparams := 1; sk_body :=
  [(SDecl "matchPtr" false (Some (XParam 0)));
  (SDecl "dotPtr" false (Some (XCast (XInt (0)%Z))));
  (SDecl "uid" false None);
@@ -646,7 +653,7 @@ Definition rf_137 : fn_skel := {| sk_name := "snoopy_util_systemd_convertUserSli
  (SAssign (XVar "uid") (XCall "atoi" [(XVar "matchPtr")]));
  (SReturn (Some (XCall "snoopy_util_pwd_convertUidToUsername" [(XVar "uid")])))] |}.
 
-Definition rf_138 : fn_skel := {| sk_name := "snoopy_util_systemd_convertCgroupEntryToUnitName"; sk_nparams := 1; sk_body :=
+Definition rf_141 : fn_skel := {| sk_name := "snoopy_util_systemd_convertCgroupEntryToUnitName"; sk_nparams := 1; sk_body :=
  [(SDecl "matchPtr" false (Some (XCast (XInt (0)%Z))));
  (SDecl "dotPtr" false (Some (XCast (XInt (0)%Z))));
  (SAssign (XVar "matchPtr") (XCall "cgroupEntry_movePastInitialChaff" [(XParam 0)]));
@@ -657,7 +664,7 @@ Definition rf_138 : fn_skel := {| sk_name := "snoopy_util_systemd_convertCgroupE
  (SReturn (Some (XCall "snoopy_util_systemd_convertUserSliceInfoToUsername" [(XVar "matchPtr")])))] [])])])]);
  (SReturn (Some (XCast (XInt (0)%Z))))] |}.
 
-Definition rf_139 : fn_skel := {| sk_name := "snoopy_datasource_systemd_unit_name"; sk_nparams := 3; sk_body :=
+Definition rf_142 : fn_skel := {| sk_name := "snoopy_datasource_systemd_unit_name"; sk_nparams := 3; sk_body :=
  [(SDecl "cgroupEntry" false (Some (XCast (XInt (0)%Z))));
  (SDecl "cgroupDsRetVal" false None);
  (SDecl "unitName" false (Some (XCast (XInt (0)%Z))));
@@ -676,7 +683,7 @@ Definition rf_139 : fn_skel := {| sk_name := "snoopy_datasource_systemd_unit_nam
  (SExpr (XCall "free" [(XVar "unitName")]));
  (SReturn (Some (XVar "retMsgLen")))] |}.
 
-Definition rf_148 : fn_skel := {| sk_name := "snoopy_datasource_tty_username"; sk_nparams := 3; sk_body :=
+Definition rf_151 : fn_skel := {| sk_name := "snoopy_datasource_tty_username"; sk_nparams := 3; sk_body :=
  [(SDecl "retVal" false None);
  (SDecl "ttyUid" false None);
  (SDecl "username" false (Some (XCast (XInt (0)%Z))));
@@ -689,7 +696,7 @@ Definition rf_148 : fn_skel := {| sk_name := "snoopy_datasource_tty_username"; s
  (SExpr (XCall "free" [(XVar "username")]));
  (SReturn (Some (XVar "retMsgLen")))] |}.
 
-Definition rf_150 : fn_skel := {| sk_name := "snoopy_datasource_username"; sk_nparams := 3; sk_body :=
+Definition rf_153 : fn_skel := {| sk_name := "snoopy_datasource_username"; sk_nparams := 3; sk_body :=
  [(SDecl "username" false (Some (XCast (XInt (0)%Z))));
  (SDecl "retMsgLen" false (Some (XInt (0)%Z)));
  (SAssign (XVar "username") (XCall "snoopy_util_pwd_convertUidToUsername" [(XCall "getuid" [])]));
@@ -698,10 +705,10 @@ Definition rf_150 : fn_skel := {| sk_name := "snoopy_datasource_username"; sk_np
  (SExpr (XCall "free" [(XVar "username")]));
  (SReturn (Some (XVar "retMsgLen")))] |}.
 
-Definition rf_158 : fn_skel := {| sk_name := "snoopy_entrypoint_cli_exit"; sk_nparams := 0; sk_body :=
+Definition rf_161 : fn_skel := {| sk_name := "snoopy_entrypoint_cli_exit"; sk_nparams := 0; sk_body :=
  [(SExpr (XCall "snoopy_cleanup" []))] |}.
 
-Definition rf_159 : fn_skel := {| sk_name := "snoopy_entrypoint_cli_init"; sk_nparams := 0; sk_body :=
+Definition rf_162 : fn_skel := {| sk_name := "snoopy_entrypoint_cli_init"; sk_nparams := 0; sk_body :=
  [(SExpr (XCall "snoopy_init" []));
  (SExpr (XCall "snoopy_inputdatastorage_store_filename" [(XStr "snoopy-cli")]));
  (SDecl "argv" false (Some (XOp "initlist" [(XCast (XInt (0)%Z))])));
@@ -709,7 +716,7 @@ Definition rf_159 : fn_skel := {| sk_name := "snoopy_entrypoint_cli_init"; sk_np
  (SDecl "envp" false (Some (XOp "initlist" [(XCast (XInt (0)%Z))])));
  (SExpr (XCall "snoopy_inputdatastorage_store_envp" [(XVar "envp")]))] |}.
 
-Definition rf_160 : fn_skel := {| sk_name := "string_to_token_array"; sk_nparams := 1; sk_body :=
+Definition rf_163 : fn_skel := {| sk_name := "string_to_token_array"; sk_nparams := 1; sk_body :=
  [(SDecl "p" false None);
  (SDecl "sepcount" false (Some (XInt (0)%Z)));
  (SDecl "token_count" false None);
@@ -729,7 +736,7 @@ Definition rf_160 : fn_skel := {| sk_name := "string_to_token_array"; sk_nparams
  (SAssign (XIndex (XVar "token_array") (XVar "token_count")) (XCast (XInt (0)%Z)));
  (SReturn (Some (XVar "token_array")))] |}.
 
-Definition rf_161 : fn_skel := {| sk_name := "snoopy_filter_exclude_spawns_of"; sk_nparams := 1; sk_body :=
+Definition rf_164 : fn_skel := {| sk_name := "snoopy_filter_exclude_spawns_of"; sk_nparams := 1; sk_body :=
  [(SDecl "argDup" false None);
  (SDecl "losp" false None);
  (SDecl "is_ancestor_in_list" false (Some (XInt (0)%Z)));
@@ -742,7 +749,7 @@ Definition rf_161 : fn_skel := {| sk_name := "snoopy_filter_exclude_spawns_of"; 
  (SExpr (XCall "free" [(XVar "argDup")]));
  (SReturn (Some (XOp "?:" [(XOp "==" [(XVar "is_ancestor_in_list"); (XInt (1)%Z)]); (XInt (0)%Z); (XInt (1)%Z)])))] |}.
 
-Definition rf_163 : fn_skel := {| sk_name := "snoopy_util_parser_csvToArgList"; sk_nparams := 2; sk_body :=
+Definition rf_166 : fn_skel := {| sk_name := "snoopy_util_parser_csvToArgList"; sk_nparams := 2; sk_body :=
  [(SDecl "commaCount" false None);
  (SDecl "argCount" false None);
  (SDecl "argListParsedPtr" false None);
@@ -766,7 +773,7 @@ Definition rf_163 : fn_skel := {| sk_name := "snoopy_util_parser_csvToArgList"; 
  (SAssign (XDeref (XParam 1)) (XVar "argListParsedPtr"));
  (SReturn (Some (XVar "argCount")))] |}.
 
-Definition rf_164 : fn_skel := {| sk_name := "snoopy_filter_exclude_uid"; sk_nparams := 1; sk_body :=
+Definition rf_167 : fn_skel := {| sk_name := "snoopy_filter_exclude_uid"; sk_nparams := 1; sk_body :=
  [(SDecl "curUid" false None);
  (SDecl "argDup" false (Some (XCast (XInt (0)%Z))));
  (SDecl "argParsed" false (Some (XCast (XInt (0)%Z))));
@@ -789,7 +796,7 @@ Definition rf_164 : fn_skel := {| sk_name := "snoopy_filter_exclude_uid"; sk_npa
  (SExpr (XCall "free" [(XVar "argParsed")]));
  (SReturn (Some (XVar "retVal")))] |}.
 
-Definition rf_168 : fn_skel := {| sk_name := "snoopy_filter_only_uid"; sk_nparams := 1; sk_body :=
+Definition rf_171 : fn_skel := {| sk_name := "snoopy_filter_only_uid"; sk_nparams := 1; sk_body :=
  [(SDecl "curUid" false None);
  (SDecl "argDup" false (Some (XCast (XInt (0)%Z))));
  (SDecl "argParsed" false (Some (XCast (XInt (0)%Z))));
@@ -812,7 +819,7 @@ Definition rf_168 : fn_skel := {| sk_name := "snoopy_filter_only_uid"; sk_nparam
  (SExpr (XCall "free" [(XVar "argParsed")]));
  (SReturn (Some (XVar "retVal")))] |}.
 
-Definition rf_174 : fn_skel := {| sk_name := "snoopy_output_socketoutput"; sk_nparams := 2; sk_body :=
+Definition rf_177 : fn_skel := {| sk_name := "snoopy_output_socketoutput"; sk_nparams := 2; sk_body :=
  [(SDecl "s" false None);
  (SDecl "remote" false None);
  (SDecl "remoteLength" false None);
@@ -829,7 +836,7 @@ Definition rf_174 : fn_skel := {| sk_name := "snoopy_output_socketoutput"; sk_np
  (SExpr (XCall "close" [(XVar "s")]));
  (SReturn (Some (XCast (XCall "strlen" [(XParam 0)]))))] |}.
 
-Definition rf_175 : fn_skel := {| sk_name := "snoopy_output_devlogoutput"; sk_nparams := 2; sk_body :=
+Definition rf_178 : fn_skel := {| sk_name := "snoopy_output_devlogoutput"; sk_nparams := 2; sk_body :=
  [(SIf (XOp "==" [(XInt (0)%Z); (XCall "strlen" [(XParam 0)])]) [(SReturn (Some (XInt (0)%Z)))] []);
  (SDecl "CFG" false (Some (XCall "snoopy_configuration_get" [])));
  (SDecl "syslogIdent" false (Some (XOp "initlist" [])));
@@ -842,7 +849,7 @@ Definition rf_175 : fn_skel := {| sk_name := "snoopy_output_devlogoutput"; sk_np
  (SExpr (XCall "free" [(XVar "logMessageWithPrefix")]));
  (SReturn (Some (XVar "bytesWritten")))] |}.
 
-Definition rf_176 : fn_skel := {| sk_name := "snoopy_output_fileoutput"; sk_nparams := 2; sk_body :=
+Definition rf_179 : fn_skel := {| sk_name := "snoopy_output_fileoutput"; sk_nparams := 2; sk_body :=
  [(SDecl "filePathBuf" false (Some (XOp "initlist" [])));
  (SDecl "filePath" false (Some (XVar "filePathBuf")));
  (SDecl "fd" false None);
@@ -862,13 +869,13 @@ Definition rf_176 : fn_skel := {| sk_name := "snoopy_output_fileoutput"; sk_npar
  (SExpr (XCall "close" [(XVar "fd")]));
  (SReturn (Some (XVar "charCount")))] |}.
 
-Definition rf_177 : fn_skel := {| sk_name := "snoopy_output_devnulloutput"; sk_nparams := 2; sk_body :=
+Definition rf_180 : fn_skel := {| sk_name := "snoopy_output_devnulloutput"; sk_nparams := 2; sk_body :=
  [(SReturn (Some (XCall "snoopy_output_fileoutput" [(XParam 0); (XStr "/dev/null")])))] |}.
 
-Definition rf_178 : fn_skel := {| sk_name := "snoopy_output_devttyoutput"; sk_nparams := 2; sk_body :=
+Definition rf_181 : fn_skel := {| sk_name := "snoopy_output_devttyoutput"; sk_nparams := 2; sk_body :=
  [(SReturn (Some (XCall "snoopy_output_fileoutput" [(XParam 0); (XStr "/dev/tty")])))] |}.
 
-Definition rf_182 : fn_skel := {| sk_name := "snoopy_output_syslogoutput"; sk_nparams := 2; sk_body :=
+Definition rf_185 : fn_skel := {| sk_name := "snoopy_output_syslogoutput"; sk_nparams := 2; sk_body :=
  [(SIf (XOp "==" [(XInt (0)%Z); (XCall "strlen" [(XParam 0)])]) [(SReturn (Some (XInt (0)%Z)))] []);
  (SDecl "CFG" false (Some (XCall "snoopy_configuration_get" [])));
  (SDecl "syslogIdent" false (Some (XOp "initlist" [])));
@@ -878,7 +885,7 @@ Definition rf_182 : fn_skel := {| sk_name := "snoopy_output_syslogoutput"; sk_np
  (SExpr (XCall "closelog" []));
  (SReturn (Some (XCast (XCall "strlen" [(XParam 0)]))))] |}.
 
-Definition rf_187 : fn_skel := {| sk_name := "snoopy_tsrm_atfork_child"; sk_nparams := 0; sk_body :=
+Definition rf_190 : fn_skel := {| sk_name := "snoopy_tsrm_atfork_child"; sk_nparams := 0; sk_body :=
  [(SDecl "curNode" false None);
  (SDecl "nextNode" false None);
  (SDecl "tData" false None);
@@ -895,7 +902,7 @@ Definition rf_187 : fn_skel := {| sk_name := "snoopy_tsrm_atfork_child"; sk_npar
  (SAssign (XMember (XVar "snoopy_tsrm_threadRepo") "last") (XCast (XInt (0)%Z)));
  (SAssign (XMember (XVar "snoopy_tsrm_threadRepo") "count") (XInt (0)%Z))] |}.
 
-Definition rf_193 : fn_skel := {| sk_name := "snoopy_util_string_copyLineFromContent"; sk_nparams := 1; sk_body :=
+Definition rf_196 : fn_skel := {| sk_name := "snoopy_util_string_copyLineFromContent"; sk_nparams := 1; sk_body :=
  [(SDecl "lineLen" false (Some (XInt (0)%Z)));
  (SDecl "copiedLine" false (Some (XCast (XInt (0)%Z))));
  (SAssign (XVar "lineLen") (XCall "snoopy_util_string_getLineLength" [(XParam 0)]));
@@ -1013,39 +1020,42 @@ Definition lib_fns : list libfn :=
    {| lf_name := "snoopy_datasource_cgroup"; lf_calls := ["doesCgroupEntryContainController"; "free"; "getpid"; "malloc"; "snoopy_util_file_getSmallTextFileContent"; "snoopy_util_string_containsOnlyDigits"; "snoopy_util_string_findLineStartingWith"; "snoopy_util_string_nullTerminateLine"; "snprintf"; "strcmp"; "strlen"; "strtok_r"]; lf_indirect := false; lf_skel := (Some rf_104) |};
    {| lf_name := "snoopy_datasource_cmdline"; lf_calls := ["snoopy_inputdatastorage_get"; "snprintf"]; lf_indirect := false; lf_skel := None |};
    {| lf_name := "snoopy_datasource_cwd"; lf_calls := ["getcwd"; "snprintf"]; lf_indirect := false; lf_skel := None |};
-   {| lf_name := "snoopy_datasource_datetime"; lf_calls := ["__errno_location"; "localtime_r"; "snprintf"; "strftime"; "time"]; lf_indirect := false; lf_skel := None |};
-   {| lf_name := "snoopy_datasource_domain"; lf_calls := ["__errno_location"; "fclose"; "fgets"; "fopen"; "gethostname"; "snprintf"; "strcasestr"; "strchr"; "strlen"; "strtok_r"]; lf_indirect := false; lf_skel := (Some rf_108) |};
+   {| lf_name := "snoopy_tsrm_localtime_r"; lf_calls := ["localtime_r"; "pthread_mutex_lock"; "pthread_mutex_unlock"]; lf_indirect := false; lf_skel := None |};
+   {| lf_name := "snoopy_tsrm_strftime"; lf_calls := ["pthread_mutex_lock"; "pthread_mutex_unlock"; "strftime"]; lf_indirect := false; lf_skel := None |};
+   {| lf_name := "snoopy_datasource_datetime"; lf_calls := ["__errno_location"; "snoopy_tsrm_localtime_r"; "snoopy_tsrm_strftime"; "snprintf"; "time"]; lf_indirect := false; lf_skel := None |};
+   {| lf_name := "snoopy_datasource_domain"; lf_calls := ["__errno_location"; "fclose"; "fgets"; "fopen"; "gethostname"; "snprintf"; "strcasestr"; "strchr"; "strlen"; "strtok_r"]; lf_indirect := false; lf_skel := (Some rf_110) |};
    {| lf_name := "snoopy_datasource_egid"; lf_calls := ["getegid"; "snprintf"]; lf_indirect := false; lf_skel := None |};
-   {| lf_name := "snoopy_datasource_egroup"; lf_calls := ["free"; "getegid"; "getgrgid_r"; "malloc"; "snprintf"; "sysconf"]; lf_indirect := false; lf_skel := (Some rf_110) |};
+   {| lf_name := "snoopy_datasource_egroup"; lf_calls := ["free"; "getegid"; "getgrgid_r"; "malloc"; "snprintf"; "sysconf"]; lf_indirect := false; lf_skel := (Some rf_112) |};
    {| lf_name := "snoopy_datasource_env"; lf_calls := ["getenv"; "snprintf"]; lf_indirect := false; lf_skel := None |};
    {| lf_name := "snoopy_datasource_env_all"; lf_calls := ["snprintf"; "strlen"]; lf_indirect := false; lf_skel := None |};
    {| lf_name := "snoopy_datasource_euid"; lf_calls := ["geteuid"; "snprintf"]; lf_indirect := false; lf_skel := None |};
-   {| lf_name := "snoopy_datasource_eusername"; lf_calls := ["free"; "geteuid"; "getpwuid_r"; "malloc"; "snprintf"; "sysconf"]; lf_indirect := false; lf_skel := (Some rf_114) |};
+   {| lf_name := "snoopy_datasource_eusername"; lf_calls := ["free"; "geteuid"; "getpwuid_r"; "malloc"; "snprintf"; "sysconf"]; lf_indirect := false; lf_skel := (Some rf_116) |};
    {| lf_name := "snoopy_datasource_failure"; lf_calls := ["snprintf"]; lf_indirect := false; lf_skel := None |};
    {| lf_name := "snoopy_datasource_filename"; lf_calls := ["snoopy_inputdatastorage_get"; "snprintf"]; lf_indirect := false; lf_skel := None |};
    {| lf_name := "snoopy_datasource_gid"; lf_calls := ["getgid"; "snprintf"]; lf_indirect := false; lf_skel := None |};
-   {| lf_name := "snoopy_datasource_group"; lf_calls := ["free"; "getgid"; "getgrgid_r"; "malloc"; "snprintf"; "sysconf"]; lf_indirect := false; lf_skel := (Some rf_118) |};
+   {| lf_name := "snoopy_datasource_group"; lf_calls := ["free"; "getgid"; "getgrgid_r"; "malloc"; "snprintf"; "sysconf"]; lf_indirect := false; lf_skel := (Some rf_120) |};
    {| lf_name := "snoopy_datasource_hostname"; lf_calls := ["__errno_location"; "gethostname"; "snprintf"; "strlen"]; lf_indirect := false; lf_skel := None |};
    {| lf_name := "snoopy_util_utmp_doesEntryContainIpAddr"; lf_calls := []; lf_indirect := false; lf_skel := None |};
-   {| lf_name := "snoopy_util_utmp_findUtmpEntryByLine"; lf_calls := ["endutent"; "getutline_r"; "setutent"; "strncpy"]; lf_indirect := false; lf_skel := (Some rf_121) |};
-   {| lf_name := "snoopy_util_utmp_findUtmpEntryByPath"; lf_calls := ["snoopy_util_utmp_findUtmpEntryByLine"; "strlen"; "strncmp"]; lf_indirect := false; lf_skel := (Some rf_122) |};
+   {| lf_name := "snoopy_tsrm_getutline"; lf_calls := ["endutent"; "getutline_r"; "pthread_mutex_lock"; "pthread_mutex_unlock"; "setutent"]; lf_indirect := false; lf_skel := (Some rf_123) |};
+   {| lf_name := "snoopy_util_utmp_findUtmpEntryByLine"; lf_calls := ["snoopy_tsrm_getutline"; "strncpy"]; lf_indirect := false; lf_skel := (Some rf_124) |};
+   {| lf_name := "snoopy_util_utmp_findUtmpEntryByPath"; lf_calls := ["snoopy_util_utmp_findUtmpEntryByLine"; "strlen"; "strncmp"]; lf_indirect := false; lf_skel := (Some rf_125) |};
    {| lf_name := "snoopy_util_utmp_getUtmpIpAddrAsString"; lf_calls := ["inet_ntop"]; lf_indirect := false; lf_skel := None |};
-   {| lf_name := "snoopy_datasource_ipaddr"; lf_calls := ["snoopy_util_utmp_doesEntryContainIpAddr"; "snoopy_util_utmp_findUtmpEntryByPath"; "snoopy_util_utmp_getUtmpIpAddrAsString"; "snprintf"; "strlen"; "ttyname_r"]; lf_indirect := false; lf_skel := (Some rf_124) |};
+   {| lf_name := "snoopy_datasource_ipaddr"; lf_calls := ["snoopy_util_utmp_doesEntryContainIpAddr"; "snoopy_util_utmp_findUtmpEntryByPath"; "snoopy_util_utmp_getUtmpIpAddrAsString"; "snprintf"; "strlen"; "ttyname_r"]; lf_indirect := false; lf_skel := (Some rf_127) |};
    {| lf_name := "snoopy_datasource_login"; lf_calls := ["getenv"; "getlogin_r"; "snprintf"; "strcpy"; "strlen"; "strncpy"]; lf_indirect := false; lf_skel := None |};
    {| lf_name := "snoopy_datasource_noop"; lf_calls := []; lf_indirect := false; lf_skel := None |};
    {| lf_name := "snoopy_datasource_pid"; lf_calls := ["getpid"; "snprintf"]; lf_indirect := false; lf_skel := None |};
    {| lf_name := "snoopy_datasource_ppid"; lf_calls := ["getppid"; "snprintf"]; lf_indirect := false; lf_skel := None |};
-   {| lf_name := "snoopy_datasource_rpname"; lf_calls := ["get_rpname"; "getpid"]; lf_indirect := false; lf_skel := (Some rf_129) |};
+   {| lf_name := "snoopy_datasource_rpname"; lf_calls := ["get_rpname"; "getpid"]; lf_indirect := false; lf_skel := (Some rf_132) |};
    {| lf_name := "snoopy_datasource_sid"; lf_calls := ["getsid"; "snprintf"]; lf_indirect := false; lf_skel := None |};
    {| lf_name := "snoopy_datasource_snoopy_configure_command"; lf_calls := ["snprintf"]; lf_indirect := false; lf_skel := None |};
    {| lf_name := "snoopy_datasource_snoopy_literal"; lf_calls := ["snprintf"]; lf_indirect := false; lf_skel := None |};
    {| lf_name := "snoopy_tsrm_get_threadCount"; lf_calls := ["pthread_mutex_lock"; "pthread_mutex_unlock"]; lf_indirect := false; lf_skel := None |};
    {| lf_name := "snoopy_datasource_snoopy_threads"; lf_calls := ["snoopy_tsrm_get_threadCount"; "snprintf"]; lf_indirect := false; lf_skel := None |};
    {| lf_name := "snoopy_datasource_snoopy_version"; lf_calls := ["snprintf"]; lf_indirect := false; lf_skel := None |};
-   {| lf_name := "snoopy_util_pwd_convertUidToUsername"; lf_calls := ["free"; "getpwuid_r"; "malloc"; "snprintf"; "sysconf"]; lf_indirect := false; lf_skel := (Some rf_136) |};
-   {| lf_name := "snoopy_util_systemd_convertUserSliceInfoToUsername"; lf_calls := ["atoi"; "snoopy_util_pwd_convertUidToUsername"; "strchr"; "strncmp"]; lf_indirect := false; lf_skel := (Some rf_137) |};
-   {| lf_name := "snoopy_util_systemd_convertCgroupEntryToUnitName"; lf_calls := ["cgroupEntry_movePastInitialChaff"; "snoopy_util_systemd_convertUserSliceInfoToUsername"; "strchr"; "strcmp"; "strdup"; "strlen"; "strncmp"; "strndup"]; lf_indirect := false; lf_skel := (Some rf_138) |};
-   {| lf_name := "snoopy_datasource_systemd_unit_name"; lf_calls := ["free"; "malloc"; "snoopy_datasource_cgroup"; "snoopy_util_systemd_convertCgroupEntryToUnitName"; "snprintf"; "strcmp"; "strlen"]; lf_indirect := false; lf_skel := (Some rf_139) |};
+   {| lf_name := "snoopy_util_pwd_convertUidToUsername"; lf_calls := ["free"; "getpwuid_r"; "malloc"; "snprintf"; "sysconf"]; lf_indirect := false; lf_skel := (Some rf_139) |};
+   {| lf_name := "snoopy_util_systemd_convertUserSliceInfoToUsername"; lf_calls := ["atoi"; "snoopy_util_pwd_convertUidToUsername"; "strchr"; "strncmp"]; lf_indirect := false; lf_skel := (Some rf_140) |};
+   {| lf_name := "snoopy_util_systemd_convertCgroupEntryToUnitName"; lf_calls := ["cgroupEntry_movePastInitialChaff"; "snoopy_util_systemd_convertUserSliceInfoToUsername"; "strchr"; "strcmp"; "strdup"; "strlen"; "strncmp"; "strndup"]; lf_indirect := false; lf_skel := (Some rf_141) |};
+   {| lf_name := "snoopy_datasource_systemd_unit_name"; lf_calls := ["free"; "malloc"; "snoopy_datasource_cgroup"; "snoopy_util_systemd_convertCgroupEntryToUnitName"; "snprintf"; "strcmp"; "strlen"]; lf_indirect := false; lf_skel := (Some rf_142) |};
    {| lf_name := "snoopy_datasource_tid"; lf_calls := ["pthread_self"; "snprintf"]; lf_indirect := false; lf_skel := None |};
    {| lf_name := "snoopy_datasource_tid_kernel"; lf_calls := ["snprintf"; "syscall"]; lf_indirect := false; lf_skel := None |};
    {| lf_name := "snoopy_datasource_timestamp"; lf_calls := ["__errno_location"; "gettimeofday"; "snprintf"]; lf_indirect := false; lf_skel := None |};
@@ -1054,9 +1064,9 @@ Definition lib_fns : list libfn :=
    {| lf_name := "snoopy_datasource_tty"; lf_calls := ["snprintf"; "ttyname_r"]; lf_indirect := false; lf_skel := None |};
    {| lf_name := "snoopy_datasource_tty__get_tty_uid"; lf_calls := ["snprintf"; "stat"; "ttyname_r"]; lf_indirect := false; lf_skel := None |};
    {| lf_name := "snoopy_datasource_tty_uid"; lf_calls := ["snoopy_datasource_tty__get_tty_uid"; "snprintf"]; lf_indirect := false; lf_skel := None |};
-   {| lf_name := "snoopy_datasource_tty_username"; lf_calls := ["free"; "snoopy_datasource_tty__get_tty_uid"; "snoopy_util_pwd_convertUidToUsername"; "snprintf"]; lf_indirect := false; lf_skel := (Some rf_148) |};
+   {| lf_name := "snoopy_datasource_tty_username"; lf_calls := ["free"; "snoopy_datasource_tty__get_tty_uid"; "snoopy_util_pwd_convertUidToUsername"; "snprintf"]; lf_indirect := false; lf_skel := (Some rf_151) |};
    {| lf_name := "snoopy_datasource_uid"; lf_calls := ["getuid"; "snprintf"]; lf_indirect := false; lf_skel := None |};
-   {| lf_name := "snoopy_datasource_username"; lf_calls := ["free"; "getuid"; "snoopy_util_pwd_convertUidToUsername"; "snprintf"]; lf_indirect := false; lf_skel := (Some rf_150) |};
+   {| lf_name := "snoopy_datasource_username"; lf_calls := ["free"; "getuid"; "snoopy_util_pwd_convertUidToUsername"; "snprintf"]; lf_indirect := false; lf_skel := (Some rf_153) |};
    {| lf_name := "snoopy_genericregistry_getCount"; lf_calls := ["strcmp"]; lf_indirect := false; lf_skel := None |};
    {| lf_name := "snoopy_genericregistry_doesIdExist"; lf_calls := ["snoopy_genericregistry_getCount"]; lf_indirect := false; lf_skel := None |};
    {| lf_name := "snoopy_datasourceregistry_doesIdExist"; lf_calls := ["snoopy_genericregistry_doesIdExist"]; lf_indirect := false; lf_skel := None |};
@@ -1064,42 +1074,42 @@ Definition lib_fns : list libfn :=
    {| lf_name := "snoopy_datasourceregistry_getCount"; lf_calls := ["snoopy_genericregistry_getCount"]; lf_indirect := false; lf_skel := None |};
    {| lf_name := "snoopy_genericregistry_getName"; lf_calls := ["snoopy_genericregistry_doesIdExist"]; lf_indirect := false; lf_skel := None |};
    {| lf_name := "snoopy_datasourceregistry_getName"; lf_calls := ["snoopy_genericregistry_getName"]; lf_indirect := false; lf_skel := None |};
-   {| lf_name := "snoopy_entrypoint_cli_exit"; lf_calls := ["snoopy_cleanup"]; lf_indirect := false; lf_skel := (Some rf_158) |};
-   {| lf_name := "snoopy_entrypoint_cli_init"; lf_calls := ["snoopy_init"; "snoopy_inputdatastorage_store_argv"; "snoopy_inputdatastorage_store_envp"; "snoopy_inputdatastorage_store_filename"]; lf_indirect := false; lf_skel := (Some rf_159) |};
-   {| lf_name := "string_to_token_array"; lf_calls := ["calloc"; "strchr"; "strtok_r"]; lf_indirect := false; lf_skel := (Some rf_160) |};
-   {| lf_name := "snoopy_filter_exclude_spawns_of"; lf_calls := ["find_ancestor_in_list"; "free"; "strdup"; "string_to_token_array"]; lf_indirect := false; lf_skel := (Some rf_161) |};
+   {| lf_name := "snoopy_entrypoint_cli_exit"; lf_calls := ["snoopy_cleanup"]; lf_indirect := false; lf_skel := (Some rf_161) |};
+   {| lf_name := "snoopy_entrypoint_cli_init"; lf_calls := ["snoopy_init"; "snoopy_inputdatastorage_store_argv"; "snoopy_inputdatastorage_store_envp"; "snoopy_inputdatastorage_store_filename"]; lf_indirect := false; lf_skel := (Some rf_162) |};
+   {| lf_name := "string_to_token_array"; lf_calls := ["calloc"; "strchr"; "strtok_r"]; lf_indirect := false; lf_skel := (Some rf_163) |};
+   {| lf_name := "snoopy_filter_exclude_spawns_of"; lf_calls := ["find_ancestor_in_list"; "free"; "strdup"; "string_to_token_array"]; lf_indirect := false; lf_skel := (Some rf_164) |};
    {| lf_name := "snoopy_util_string_countChars"; lf_calls := []; lf_indirect := false; lf_skel := None |};
-   {| lf_name := "snoopy_util_parser_csvToArgList"; lf_calls := ["malloc"; "snoopy_util_string_countChars"; "strchr"; "strlen"]; lf_indirect := false; lf_skel := (Some rf_163) |};
-   {| lf_name := "snoopy_filter_exclude_uid"; lf_calls := ["atol"; "free"; "getuid"; "snoopy_util_parser_csvToArgList"; "strdup"]; lf_indirect := false; lf_skel := (Some rf_164) |};
+   {| lf_name := "snoopy_util_parser_csvToArgList"; lf_calls := ["malloc"; "snoopy_util_string_countChars"; "strchr"; "strlen"]; lf_indirect := false; lf_skel := (Some rf_166) |};
+   {| lf_name := "snoopy_filter_exclude_uid"; lf_calls := ["atol"; "free"; "getuid"; "snoopy_util_parser_csvToArgList"; "strdup"]; lf_indirect := false; lf_skel := (Some rf_167) |};
    {| lf_name := "snoopy_filter_noop"; lf_calls := []; lf_indirect := false; lf_skel := None |};
    {| lf_name := "snoopy_filter_only_root"; lf_calls := ["getuid"]; lf_indirect := false; lf_skel := None |};
    {| lf_name := "snoopy_filter_only_tty"; lf_calls := ["ttyname_r"]; lf_indirect := false; lf_skel := None |};
-   {| lf_name := "snoopy_filter_only_uid"; lf_calls := ["atol"; "free"; "getuid"; "snoopy_util_parser_csvToArgList"; "strdup"]; lf_indirect := false; lf_skel := (Some rf_168) |};
+   {| lf_name := "snoopy_filter_only_uid"; lf_calls := ["atol"; "free"; "getuid"; "snoopy_util_parser_csvToArgList"; "strdup"]; lf_indirect := false; lf_skel := (Some rf_171) |};
    {| lf_name := "snoopy_filterregistry_doesIdExist"; lf_calls := ["snoopy_genericregistry_doesIdExist"]; lf_indirect := false; lf_skel := None |};
    {| lf_name := "snoopy_filterregistry_callById"; lf_calls := ["snoopy_filterregistry_doesIdExist"]; lf_indirect := true; lf_skel := None |};
    {| lf_name := "snoopy_filterregistry_getCount"; lf_calls := ["snoopy_genericregistry_getCount"]; lf_indirect := false; lf_skel := None |};
    {| lf_name := "snoopy_filterregistry_getName"; lf_calls := ["snoopy_genericregistry_getName"]; lf_indirect := false; lf_skel := None |};
    {| lf_name := "snoopy_ini_parse_string"; lf_calls := ["snoopy_ini_parse_stream"; "strlen"]; lf_indirect := false; lf_skel := None |};
-   {| lf_name := "snoopy_output_socketoutput"; lf_calls := ["close"; "connect"; "send"; "socket"; "strlen"; "strncpy"; "strnlen"]; lf_indirect := false; lf_skel := (Some rf_174) |};
-   {| lf_name := "snoopy_output_devlogoutput"; lf_calls := ["free"; "getpid"; "malloc"; "snoopy_configuration_get"; "snoopy_message_generateFromFormat"; "snoopy_output_socketoutput"; "snprintf"; "strlen"]; lf_indirect := false; lf_skel := (Some rf_175) |};
-   {| lf_name := "snoopy_output_fileoutput"; lf_calls := ["close"; "free"; "malloc"; "memcpy"; "open"; "snoopy_message_generateFromFormat"; "strcmp"; "strlen"; "write"]; lf_indirect := false; lf_skel := (Some rf_176) |};
-   {| lf_name := "snoopy_output_devnulloutput"; lf_calls := ["snoopy_output_fileoutput"]; lf_indirect := false; lf_skel := (Some rf_177) |};
-   {| lf_name := "snoopy_output_devttyoutput"; lf_calls := ["snoopy_output_fileoutput"]; lf_indirect := false; lf_skel := (Some rf_178) |};
+   {| lf_name := "snoopy_output_socketoutput"; lf_calls := ["close"; "connect"; "send"; "socket"; "strlen"; "strncpy"; "strnlen"]; lf_indirect := false; lf_skel := (Some rf_177) |};
+   {| lf_name := "snoopy_output_devlogoutput"; lf_calls := ["free"; "getpid"; "malloc"; "snoopy_configuration_get"; "snoopy_message_generateFromFormat"; "snoopy_output_socketoutput"; "snprintf"; "strlen"]; lf_indirect := false; lf_skel := (Some rf_178) |};
+   {| lf_name := "snoopy_output_fileoutput"; lf_calls := ["close"; "free"; "malloc"; "memcpy"; "open"; "snoopy_message_generateFromFormat"; "strcmp"; "strlen"; "write"]; lf_indirect := false; lf_skel := (Some rf_179) |};
+   {| lf_name := "snoopy_output_devnulloutput"; lf_calls := ["snoopy_output_fileoutput"]; lf_indirect := false; lf_skel := (Some rf_180) |};
+   {| lf_name := "snoopy_output_devttyoutput"; lf_calls := ["snoopy_output_fileoutput"]; lf_indirect := false; lf_skel := (Some rf_181) |};
    {| lf_name := "snoopy_output_noopoutput"; lf_calls := []; lf_indirect := false; lf_skel := None |};
    {| lf_name := "snoopy_output_stderroutput"; lf_calls := ["fprintf"]; lf_indirect := false; lf_skel := None |};
    {| lf_name := "snoopy_output_stdoutoutput"; lf_calls := ["dprintf"]; lf_indirect := false; lf_skel := None |};
-   {| lf_name := "snoopy_output_syslogoutput"; lf_calls := ["closelog"; "openlog"; "snoopy_configuration_get"; "snoopy_message_generateFromFormat"; "strlen"; "syslog"]; lf_indirect := false; lf_skel := (Some rf_182) |};
+   {| lf_name := "snoopy_output_syslogoutput"; lf_calls := ["closelog"; "openlog"; "snoopy_configuration_get"; "snoopy_message_generateFromFormat"; "strlen"; "syslog"]; lf_indirect := false; lf_skel := (Some rf_185) |};
    {| lf_name := "snoopy_outputregistry_doesIdExist"; lf_calls := ["snoopy_genericregistry_doesIdExist"]; lf_indirect := false; lf_skel := None |};
    {| lf_name := "snoopy_outputregistry_callById"; lf_calls := ["snoopy_outputregistry_doesIdExist"]; lf_indirect := true; lf_skel := None |};
    {| lf_name := "snoopy_outputregistry_getCount"; lf_calls := ["snoopy_genericregistry_getCount"]; lf_indirect := false; lf_skel := None |};
    {| lf_name := "snoopy_outputregistry_getName"; lf_calls := ["snoopy_genericregistry_getName"]; lf_indirect := false; lf_skel := None |};
-   {| lf_name := "snoopy_tsrm_atfork_child"; lf_calls := ["free"; "pthread_mutex_init"]; lf_indirect := false; lf_skel := (Some rf_187) |};
+   {| lf_name := "snoopy_tsrm_atfork_child"; lf_calls := ["free"; "pthread_mutex_init"]; lf_indirect := false; lf_skel := (Some rf_190) |};
    {| lf_name := "snoopy_tsrm_atfork_parent"; lf_calls := ["pthread_mutex_unlock"]; lf_indirect := false; lf_skel := None |};
    {| lf_name := "snoopy_tsrm_atfork_prepare"; lf_calls := ["pthread_mutex_lock"]; lf_indirect := false; lf_skel := None |};
    {| lf_name := "snoopy_tsrm_init"; lf_calls := ["pthread_atfork"; "pthread_mutex_init"; "pthread_mutexattr_init"; "pthread_mutexattr_settype"]; lf_indirect := false; lf_skel := None |};
    {| lf_name := "snoopy_tsrm_onLoad"; lf_calls := ["pthread_once"]; lf_indirect := false; lf_skel := None |};
    {| lf_name := "snoopy_util_string_getLineLength"; lf_calls := ["strchr"; "strlen"]; lf_indirect := false; lf_skel := None |};
-   {| lf_name := "snoopy_util_string_copyLineFromContent"; lf_calls := ["malloc"; "snoopy_util_string_getLineLength"; "strncpy"]; lf_indirect := false; lf_skel := (Some rf_193) |};
+   {| lf_name := "snoopy_util_string_copyLineFromContent"; lf_calls := ["malloc"; "snoopy_util_string_getLineLength"; "strncpy"]; lf_indirect := false; lf_skel := (Some rf_196) |};
    {| lf_name := "snoopy_util_utmp_test_setAlternateUtmpFilePath"; lf_calls := ["utmpname"]; lf_indirect := false; lf_skel := None |}].
 
 Definition address_taken : list string :=
